@@ -238,8 +238,11 @@ package text
 //@ -- ------------------------------------------------------------------ file
 //@ props C11,C09,C12
 
+//@ -- the text obtained by replacing every non-overlapping occurrence of `old` in `s` by `new` (bytes.Replace with n < 0)
+//@ abstract func replaceAll(s string, old string, new string) string
 //@ assume func bytes.Replace(s []byte, old []byte, new []byte, n int) (r []byte)
 //@   ensures r == nil || fresh(r)
+//@   ensures [replaced] n < 0 ==> strof(r) == replaceAll(strof(s), strof(old), strof(new))
 //@   assigns nothing
 
 //@ assume func sort.Search(n int, f func(int) bool) (r int)
@@ -255,6 +258,7 @@ package text
 //@ func NewFile(filename string, data []byte) (f *File)
 //@   ensures fresh(f) && wfFile(f) && f.offset == 1 && f.lines == nil && f.filename == filename
 //@   ensures f.data == nil || fresh(f.data)
+//@   ensures [crlf;C11] strof(f.data) == replaceAll(strof(data), "\r\n", "\n")
 //@   assigns nothing
 
 //@ -- line table: lines[j] is the offset of the first byte of line j+1; line starts are exactly 0 and
@@ -305,6 +309,10 @@ package text
 //@ props C10
 //@ kindprops frame=C07,C14
 
+//@ -- does the whitespace run [a, b) of the reader's file violate the mode?
+//@ pure func hasLb(r *Reader, a parsley.Pos, b parsley.Pos) bool = exists k int :: CurOf(r, a) <= k && k < CurOf(r, b) && isLb(DataOf(r)[k])
+//@ pure func modeViolated(r *Reader, m WsMode, a parsley.Pos, b parsley.Pos) bool = (m == WsNone && b > a) || (m == WsSpaces && hasLb(r, a, b)) || (m == WsSpacesForceNl && !hasLb(r, a, b))
+
 //@ -- LeftTrim: the inner parser is called exactly once, right after the whitespace run, with the caller's
 //@ -- left-recursion context; when the run satisfies the mode the inner parser's result is returned as is
 //@ closure LeftTrim$1(ctx *parsley.Context, lrc data.IntMap, pos parsley.Pos) (n parsley.Node, cp data.IntSet, err parsley.Error)
@@ -317,6 +325,8 @@ package text
 //@   ensures  [transparent] wsMode == WsSpacesNl ==> same(n, callres[parsley.Node](1, 0)) && same(cp, callres[data.IntSet](1, 1)) && same(err, callres[parsley.Error](1, 2))
 //@   ensures  [accepted] err == nil && n != nil ==> same(n, callres[parsley.Node](1, 0)) && same(cp, callres[data.IntSet](1, 1))
 //@   ensures  [none-violated] wsMode == WsNone && callarg[parsley.Pos](1, 3) > pos && callres[parsley.Error](1, 2) == nil ==> n == nil && err != nil && err.Pos() == pos && parsley.IsWsErr(err)
+//@   ensures  [violated;C10] callres[parsley.Error](1, 2) == nil && modeViolated(tr, wsMode, pos, callarg[parsley.Pos](1, 3)) ==> n == nil && err != nil && parsley.IsWsErr(err)
+//@   ensures  [satisfied;C10] callres[parsley.Error](1, 2) == nil && !modeViolated(tr, wsMode, pos, callarg[parsley.Pos](1, 3)) ==> err == nil && same(n, callres[parsley.Node](1, 0))
 //@   ghost_return when err != nil && err.Pos() > parsley.GhostMaxFail :: parsley.GhostMaxFail = err.Pos()
 
 //@ -- ------------------------------------------------------------------ RightTrim / Trim
